@@ -128,10 +128,8 @@ def run_prop(prop, req_props, tier, seed, ncases, rule, assumptions):
         for c in cases:
             if c.get("oracle") == "fail" and c.get("kid"):
                 for k in c.get("kclasses", []):
-                    if k in open_ids and k != c["kid"] and k not in chk.known_hits:
-                        chk.known_hits[k] = 0
                     if k in open_ids and k != c["kid"]:
-                        chk.known_hits[k] += 0 if k == c["kid"] else 1
+                        chk.known_hits[k] = chk.known_hits.get(k, 0) + 1
     chk.coverage["rule"] = rule
     chk.coverage["samples"] = samples(cases)
     chk.coverage["trusted_base"] = TRUSTED
